@@ -109,6 +109,7 @@ def docErrName : DocErr → String
 def excName : Exc → String
   | .attributeError => "AttributeError" | .valueError => "ValueError" | .typeError => "TypeError"
   | .importError => "ImportError" | .notImplementedError => "NotImplementedError"
+  | .moduleNotFoundError => "ModuleNotFoundError"
 
 def showOutcome : Outcome → String
   | .err e => docErrName e
